@@ -36,12 +36,17 @@ var wantedFuncs = []string{
 	"PUIntBody.Parsed", "PUIntBody.Empty", "PUIntBody.Pending",
 	"PCSeqBody.Parsed", "PCSeqBody.Empty", "PCSeqBody.Pending",
 	"PFromBody.Parsed", "PFromBody.Empty", "PFromBody.Pending",
-	"PFLine.Parsed", "PFLine.Empty", "PFLine.Pending",
-	"PSIPMsg.Parsed", "PSIPMsg.Err",
+	"PFLine.Parsed", "PFLine.Empty", "PFLine.Pending", "PFLine.Request", "PTokParam.Empty",
+	"PSIPMsg.Parsed", "PSIPMsg.Err", "PSIPMsg.Request", "PSIPMsg.Method",
 	"PContacts.Empty", "PContacts.Parsed", "PContacts.VNo", "PContacts.More", "PPAIs.Empty", "PPAIs.Parsed", "PPAIs.VNo", "PPAIs.More",
 	"URIParamsLst.PNo", "URIParamsLst.More", "URIHdrsLst.HNo", "URIHdrsLst.More",
 	"URIParamsLst.Empty", "URIHdrsLst.Empty", "Hdr.Missing",
 }
+
+type fieldPar struct{ path, lt string }
+
+// argument-less methods of structs translated so far that only read scalar fields: the sub-paths they read
+var methodSigs = map[string][]fieldPar{}
 
 type untr struct{ msg string }
 
@@ -154,13 +159,11 @@ func (f *ftr) expr(e ast.Expr) string {
 		}
 		bail("pointer dereference")
 	case *ast.SelectorExpr:
-		if id, ok := x.X.(*ast.Ident); ok && id.Name == f.recv && f.strct != nil {
+		// a path of field selections rooted at the struct receiver (`fl.Status`, `m.PV.CSeq.MethodNo`) of scalar type:
+		// one parameter per path
+		if p, ok := f.recvPath(x); ok && f.strct != nil {
 			lt := leanType(f.typeOf(x)) // must be scalar
-			if !f.fields[x.Sel.Name] {
-				f.fields[x.Sel.Name] = true
-				f.fieldL = append(f.fieldL, "(v_"+id.Name+"_"+x.Sel.Name+" : "+lt+")")
-			}
-			return "v_" + id.Name + "_" + x.Sel.Name
+			return f.fieldParam(p, lt)
 		}
 		bail("selector %s", x.Sel.Name)
 	case *ast.UnaryExpr:
@@ -208,6 +211,30 @@ func (f *ftr) expr(e ast.Expr) string {
 		}
 		if tv, ok := f.info.Types[x.Fun]; ok && tv.IsType() && len(x.Args) == 1 {
 			return f.conv(x, f.expr(x.Args[0]))
+		}
+		// `recv.Path.Method()` (or `recv.Method()`) where Method is an already translated, argument-less method of a
+		// struct that only READS scalar fields: a call of its translation on the corresponding sub-paths
+		if sel, ok := x.Fun.(*ast.SelectorExpr); ok && len(x.Args) == 0 && f.strct != nil {
+			if p, ok := f.recvPath(sel.X); ok {
+				t := f.typeOf(sel.X)
+				if pt, isP := t.(*types.Pointer); isP {
+					t = pt.Elem()
+				}
+				if nt, isN := t.(*types.Named); isN {
+					key := nt.Obj().Name() + "." + sel.Sel.Name
+					if sig, ok := methodSigs[key]; ok {
+						var args []string
+						for _, fp := range sig {
+							sub := fp.path
+							if p != "" {
+								sub = p + "_" + fp.path
+							}
+							args = append(args, f.fieldParam(sub, fp.lt))
+						}
+						return "(Sipsp.Gen.F." + strings.ReplaceAll(key, ".", "_") + " " + strings.Join(args, " ") + ")"
+					}
+				}
+			}
 		}
 		bail("call")
 	}
@@ -324,6 +351,35 @@ func hasIndex(n ast.Node) bool {
 		return !found
 	})
 	return found
+}
+
+// recvPath: x is recv.A.B… -> "A_B…" (the receiver alone gives "")
+func (f *ftr) recvPath(e ast.Expr) (string, bool) {
+	switch x := e.(type) {
+	case *ast.Ident:
+		if x.Name == f.recv && f.recv != "" {
+			return "", true
+		}
+	case *ast.SelectorExpr:
+		if p, ok := f.recvPath(x.X); ok {
+			if _, isField := f.info.Selections[x]; isField || true {
+				if p == "" {
+					return x.Sel.Name, true
+				}
+				return p + "_" + x.Sel.Name, true
+			}
+		}
+	}
+	return "", false
+}
+
+func (f *ftr) fieldParam(path, lt string) string {
+	name := "v_" + f.recv + "_" + path
+	if !f.fields[path] {
+		f.fields[path] = true
+		f.fieldL = append(f.fieldL, "("+name+" : "+lt+")")
+	}
+	return name
 }
 
 func (f *ftr) declare(name string) {
@@ -855,6 +911,14 @@ func emitFuncs(files []*ast.File, info *types.Info, pkg *types.Package) (string,
 			}
 			if !strings.Contains(name, ".") {
 				doneMon[name] = f.mon
+			} else if f.strct != nil && !f.mon && len(f.wrL) == 0 && len(f.parN) == 0 {
+				var sig []fieldPar
+				for _, b := range f.fieldL { // "(v_recv_Path : T)"
+					inner := strings.TrimSuffix(strings.TrimPrefix(b, "("), ")")
+					parts := strings.SplitN(inner, " : ", 2)
+					sig = append(sig, fieldPar{strings.TrimPrefix(parts[0], "v_"+f.recv+"_"), parts[1]})
+				}
+				methodSigs[name] = sig
 			}
 			return f.aux + "/-- translated from the Go source of `" + name + "` -/\n" + fmt.Sprintf("def %s %s : %s :=\n  %s\n", lname, strings.Join(params, " "), rt, body), ""
 		}()
